@@ -716,8 +716,10 @@ impl IndexManager {
             return None;
         }
 
-        let bucket = u8::from_str_radix(&filename[0..2], 16).ok()?;
-        let version = u32::from_str_radix(&filename[2..10], 16).ok()?;
+        // `get` instead of indexing: a stray file name with a multi-byte
+        // character across offset 2 is not an index file, not a panic.
+        let bucket = u8::from_str_radix(filename.get(0..2)?, 16).ok()?;
+        let version = u32::from_str_radix(filename.get(2..10)?, 16).ok()?;
 
         Some((bucket, version))
     }
